@@ -16,7 +16,8 @@ CHECKS = {
         technique="Lean 4 refinement proof (simulation relation, induction over histories) + differential correspondence against model and list-of-parts spec",
         text="A generic simulation theorem (run_refines) shows that for every finite history the observations of the Go-code model equal those of the "
              "abstract list-of-parts specification; instantiated and proved for Polygon/MultiLineString (C02_poly_refines: Num, i-th part incl. empty parts, "
-             "Coords concatenation, wrong-layout Push error and unchanged receiver, Reverse, Swap). MultiPoint/MultiPolygon share the executable machines "
+             "Coords concatenation, wrong-layout Push error and unchanged receiver, Reverse, Swap). GeometryCollection histories (variadic Push, SetLayout, Layout, Geom, Geoms) are proved to refine the list-of-parts spec with all-or-nothing Push "
+             "(C02_coll_refines, C02_coll_push_all_or_nothing, C02_coll_parts). MultiPoint/MultiPolygon share the executable machines "
              "and are compared with their specs on generated histories each run. Go is run on the same histories and compared with both.",
         note=NOTE_COMMON + "Refinement is proved for the geom2 types; for MultiPoint and MultiPolygon only the per-run comparison with the spec machine is available (partial).",
     ),
@@ -81,14 +82,16 @@ CHECKS = {
         note=NOTE_COMMON + "Heap model: arrays of cells with (array, offset, len, cap) slices; Go's runtime growth policy is a universally quantified parameter.",
     ),
     "C03": dict(
-        technique="Lean 4 theorems (model writers = independent reference encoder for Point/LineString/Polygon in every byte order; u32 round trip; ReadFull chunk-invariance; writer-fault prefix) + Tie theorems over type words emitted by the real encoders + differential correspondence against model and reference encoder",
+        technique="Lean 4 theorems (model writers = independent reference encoder for LineString/Polygon in every byte order; reader inverts writer: Point/LineString/Polygon WKB and LineString EWKB with SRID round trips incl. trailing bytes; ReadFull chunk-invariance; writer-fault prefix) + Tie theorems over type words emitted by the real encoders + differential correspondence against model and reference encoder",
         text="An independent reference encoder for ISO WKB and PostGIS EWKB over nested coordinates is the oracle for Go's bytes on every run; the Lean model "
              "of the writers is proved equal to it for LineString and Polygon (all layouts, byte orders, sizes, empty rings) and count/type words are proved "
-             "to read back. io.ReadFull over any split of the input is proved to depend only on the concatenation, and write sequencing is proved never to "
+             "to read back. C03_wkb_point/lineString/polygon_roundtrip, C03_ewkb_lineString_roundtrip and C03_wkb_lineString/polygon_read_write prove that the reader "
+             "model applied to the encoding (followed by any trailing bytes) returns exactly the geometry - layout, ring structure, every ordinate bit pattern, SRID for EWKB - "
+             "and leaves exactly the trailing bytes, for every size below 2^32, layout and byte order. io.ReadFull over any split of the input is proved to depend only on the concatenation, and write sequencing is proved never to "
              "report success after a failed write while emitting a prefix. Type words emitted by the real encoders for all 28 type x layout pairs (and with "
              "SRID) are regenerated each run and tied to the model by decide. Multi types, nested collections, hex and SQL wrappers are covered by the "
              "executable model + reference encoder on generated inputs.",
-        note=NOTE_COMMON + "Partial: write=spec and decode(encode g)=g are theorems only for the non-recursive types; the recursive cases are decided per explored input.",
+        note=NOTE_COMMON + "Partial: write=spec and decode(encode g)=g are theorems for the non-recursive types (Point, LineString, Polygon); multi types and collections (recursion through Push) are decided per explored input.",
     ),
     "C04": dict(
         technique="Lean 4 theorems about the reader model (totality by induction on fuel with a no-panic predicate; limit check before allocation; allocation bound; well-formedness invariant of the ring loop) + differential correspondence on mutated encodings with measured allocation",
